@@ -169,6 +169,15 @@ class Executor:
             if count:
                 st.inconclusive += 1
             return [], None
+        except Exception as e:
+            # every case a module generates consists of operations the module expects the library to carry out (or
+            # to refuse in a way the module handles itself): an exception whose innermost frame lies in the library
+            # and that the module did not anticipate is a failure of the library, not of the harness
+            if not sut_raised(e):
+                raise
+            import traceback
+            out = Outcome()
+            out.fail("unexpected-exception-from-library:" + type(e).__name__, traceback.format_exc()[-700:])
         if count:
             st.evaluations += 1
             if generated:
@@ -533,6 +542,12 @@ def run_replay(modname, path):
     except Inconclusive as e:
         print("inconclusive: %s" % e)
         return 2
+    except Exception as e:
+        if not sut_raised(e):
+            raise
+        import traceback
+        out = Outcome()
+        out.fail("unexpected-exception-from-library:" + type(e).__name__, traceback.format_exc()[-700:])
     bad = [d for d in out.disc if known_match(open_f, d["kind"]) is None]
     known = [d for d in out.disc if known_match(open_f, d["kind"]) is not None]
     for d in known:
